@@ -13,9 +13,14 @@
     the configured target name with client-decoded values, [selects Q] keeps
     the leaves below the subscription path.
 
+    [replay] keeps the newest value per leaf: an update older than what the leaf
+    holds (or an unchanged repeat at the same timestamp) is a no-op, a delete
+    removes what is older than it, and a rejected update never keeps the other
+    operations of its notification from taking effect.  Timestamps are
+    arbitrary (no monotonicity is assumed).
+
     [stream_ok name Vals Q s] (PipelineProofs.conforms) says of the subscribed
-    target's stream: notification timestamps strictly increase
-    ([ts_increasing]); the replay is prefix-free at every instant
+    target's stream: the replay is prefix-free at every instant
     ([prefix_free_from [] s = true]: no update meets a stored path that is a
     proper prefix or extension of its own); every update path is glob-free and
     the subscription path does not run below it; values are drawn from [Vals];
@@ -28,7 +33,9 @@ From Gnmi Require Import Base.Prelude CTree.CTreeModel Pipeline.PipelineModel Pi
 
 (** relay_faithful: for every configuration (any number of targets), every
     stream of every other target, EVERY schedule, every subscription to a
-    subtree of a configured target, and every conforming stream of that target:
+    subtree of a configured target, and every conforming stream of that target
+    (any timestamps; updates the cache rejects as stale mixed with accepted ones
+    and with deletes in one notification included):
     at quiescence the client holds exactly the target's final state under the
     configured name -- no missing, extra or stale leaf *)
 Theorem C01_relay_faithful :
@@ -135,6 +142,18 @@ Theorem C01_mixed_encoding_regression :
   del_full (to_delete Refuted.r_mixed 300) = full_path Refuted.r_mixed.
 Proof. exact Refuted.mixed_encoding_regression. Qed.
 Print Assumptions C01_mixed_encoding_regression.
+
+(** the seeded defect seed_rb as an instance: a notification repeating an
+    unchanged leaf at its unchanged timestamp (rejected as stale) and deleting
+    another leaf -- the delete takes effect, in the model and in the replay *)
+Theorem C01_rejected_update_keeps_deletes :
+  pipeline Refuted.cfg1 [("dev1", Refuted.s_rejected)] RelayExample.q
+      [AIngest "dev1"; AIngest "dev1"; ASubscribe; ASend; ASend; ASend]
+    = VLeaves [(["dev1"; "openconfig"; "a"; "y"], SInt 2)] /\
+  selects ["dev1"] (stamp_paths "dev1" (replay Refuted.s_rejected))
+    = [(["dev1"; "openconfig"; "a"; "y"], SInt 2)].
+Proof. exact Refuted.rejected_update_keeps_deletes. Qed.
+Print Assumptions C01_rejected_update_keeps_deletes.
 
 (** outside prefix-freeness: a notification that deletes a leaf and writes below
     it is applied updates-first by the cache (gNMI: deletes first) and the
